@@ -14,6 +14,7 @@ import dns.rdata
 import dns.rdataclass
 import dns.rdataset
 import dns.rdatatype
+import dns.rrset
 import dns.versioned
 import dns.zone
 
@@ -26,7 +27,7 @@ SOA = dns.rdatatype.SOA
 TXT = dns.rdatatype.TXT
 NONE = dns.rdatatype.NONE
 TTL = 300
-NAMES = ["a", "b"]  # owner names of the item universe (relative spelling)
+NAMES = ["a", "b", "d", "g.d"]  # owner names of the item universe (relative spelling); ["d", 0] = NS at d
 
 
 class Boom(Exception):
@@ -44,6 +45,8 @@ def soa_rdata(serial):
 
 
 NS_RDATA = dns.rdata.from_text(IN, NS, "ns1.other.")
+NS_D = dns.rdata.from_text(IN, NS, "nsd.other.")   # the delegation at d (item ["d", 0])
+NS_8 = dns.rdata.from_text(IN, NS, "ns8.other.")
 
 
 _A = {}
@@ -116,6 +119,8 @@ def abstract(pairs, relativize):
             if seen_ns:
                 items.append(["?dupns", 0])
             seen_ns = True
+        elif n == "d" and rds.rdtype == NS and list(rds) == [NS_D]:
+            items.append(["d", 0])
         elif n in NAMES and rds.rdtype == A and len(rds) > 0:
             for rd in rds:
                 items.append([n, _A_REV.get(rd, -1)])
@@ -219,23 +224,80 @@ CUSTOM = {
 
 
 # ----------------------------------------------------------------------------- writing
-def stage(txn, target, relativize):
+def put(txn, name, rdtype, rdatas, form, kept):
+    """store the rdataset (rdtype, TTL, rdatas) at name through the given argument form;
+    the Rdataset / RRset objects handed to the transaction are kept by the caller"""
+    if form == "rdataset":
+        rds = dns.rdataset.Rdataset(IN, rdtype, NONE, TTL)
+        for rd in rdatas:
+            rds.add(rd, TTL)
+        kept.append(rds)
+        txn.replace(name, rds)
+    elif form == "rrset":
+        rrs = dns.rrset.RRset(name, IN, rdtype)
+        for rd in rdatas:
+            rrs.add(rd, TTL)
+        kept.append(rrs)
+        txn.replace(rrs)
+    else:
+        txn.replace(name, TTL, rdatas[0])
+        for rd in rdatas[1:]:
+            txn.add(name, TTL, rd)
+
+
+def stage(txn, target, relativize, form="rdata", kept=None):
     """make the write transaction hold exactly the abstract content `target`
-    ([serial, items]); always touches something, so the transaction counts as changed."""
+    ([serial, items]); always touches something, so the transaction counts as changed.
+    Only rdatasets that differ are written (an item that stays is NOT rewritten: a
+    delegation added above an existing name leaves that name's node to the zone)."""
+    if kept is None:
+        kept = []
     cur = abstract(list(txn.iterate_rdatasets()), relativize)
     serial, items = target["serial"], sorted(list(i) for i in target["items"])
     apex = owner("@", relativize)
     if cur[0] != serial:
-        txn.replace(apex, TTL, soa_rdata(serial))
+        put(txn, apex, SOA, [soa_rdata(serial)], form, kept)
     # touch: re-put the apex NS (identical) - a change that changes nothing
-    txn.replace(apex, TTL, NS_RDATA)
+    put(txn, apex, NS, [NS_RDATA], form, kept)
     have = [i for i in cur[1] if not str(i[0]).startswith("?")]
-    for n, k in have:
-        if [n, k] not in items:
-            txn.delete(owner(n, relativize), a_rdata(k))
-    for n, k in items:
-        if [n, k] not in have:
-            txn.add(owner(n, relativize), TTL, a_rdata(k))
+    for n in NAMES:
+        want_a = [k for (m, k) in items if m == n and k != 0]
+        have_a = [k for (m, k) in have if m == n and k != 0]
+        if want_a != have_a:
+            if not want_a:
+                txn.delete(owner(n, relativize), A)
+            elif form == "rdata":
+                for k in have_a:
+                    if k not in want_a:
+                        txn.delete(owner(n, relativize), a_rdata(k))
+                for k in want_a:
+                    if k not in have_a:
+                        txn.add(owner(n, relativize), TTL, a_rdata(k))
+            else:
+                put(txn, owner(n, relativize), A, [a_rdata(k) for k in want_a], form, kept)
+        want_ns = [n, 0] in items
+        have_ns = [n, 0] in have
+        if want_ns and not have_ns:
+            put(txn, owner(n, relativize), NS, [NS_D], form, kept)
+        elif have_ns and not want_ns:
+            txn.delete(owner(n, relativize), NS)
+
+
+def scribble(objs, how):
+    """the caller changes Rdataset / RRset objects of its own that it once handed to a
+    (now ended) write transaction"""
+    for o in objs:
+        try:
+            if how == "add":
+                extra = {A: a_rdata(8), NS: NS_8, SOA: soa_rdata(4242)}.get(o.rdtype)
+                if extra is not None:
+                    o.add(extra, TTL)
+            elif how == "ttl":
+                o.update_ttl(77)
+            else:
+                o.clear()
+        except Exception:  # noqa: BLE001 - the caller's own objects; failures are its business
+            pass
 
 
 # a short list of mutation attempts made through a read transaction in the middle of a
@@ -266,6 +328,20 @@ def mutate_through_reader(zone, txn, relativize):
             ("version.nodes.pop", lambda: ver.nodes.pop(apex)),
             ("version.delete_node", lambda: ver.delete_node(apex)),
         ]
+    # every node the reader can reach (also nodes that the zone only re-flagged)
+    for nm in list(ver.keys()):
+        for how, nd in (("get_node", txn.get_node(nm)), ("nodes[]", ver.nodes.get(nm))):
+            if nd is None:
+                continue
+            lab = "%s(%s)" % (how, name_text(nm, relativize))
+            attempts.append((lab + ".replace_rdataset", lambda nd=nd: nd.replace_rdataset(dns.rdataset.from_rdata(77, rd9))))
+            attempts.append((lab + ".find_rdataset(create)", lambda nd=nd: nd.find_rdataset(IN, TXT, create=True)))
+            if hasattr(nd, "flags"):
+                attempts.append((lab + ".setattr flags", lambda nd=nd: setattr(nd, "flags", dns.btreezone.NodeFlags(7))))
+            if len(nd.rdatasets) > 0:
+                r0 = nd.rdatasets[0]
+                attempts.append((lab + ".delete_rdataset", lambda nd=nd, r0=r0: nd.delete_rdataset(r0.rdclass, r0.rdtype, r0.covers)))
+                attempts.append((lab + ".rdatasets[0].update_ttl", lambda r0=r0: r0.update_ttl(77)))
     node = txn.get_node(apex)
     if node is not None:
         attempts += [
@@ -328,10 +404,11 @@ def mutate_zone(zone, relativize):
 # ----------------------------------------------------------------------------- replay
 def new_zone(zclass, relativize, init):
     zone = ZCLASSES[zclass](ORIGIN, relativize=relativize)
+    kept = []
     if init["kind"] == "loaded":
         with zone.writer(True) as txn:
-            stage(txn, init["content"], relativize)
-    return zone
+            stage(txn, init["content"], relativize, "rdataset", kept)
+    return zone, kept
 
 
 def end_reader(txn, how):
@@ -357,9 +434,10 @@ def replay(script, zclass, relativize, tid):
     init = script[0]
     trace = {"tid": tid, "zclass": zclass, "rel": relativize, "ev": []}
     ev = trace["ev"]
-    zone = new_zone(zclass, relativize, init)
+    zone, released = new_zone(zclass, relativize, init)  # released: objects handed to write transactions that have ended
     handles = {}
     wtxn = None
+    kept = []       # objects handed to the open write transaction
     rec = {"op": "init", "kind": init["kind"]}
     rec.update(snapshot(zone, handles, relativize))
     rec["vkinds"] = [type(v).__name__ for v in zone._versions]
@@ -418,10 +496,16 @@ def replay(script, zclass, relativize, tid):
                     wtxn.__enter__()
         elif op == "stage":
             rec["content"] = [e["content"]["serial"], sorted(list(x) for x in e["content"]["items"])]
-            res, exc, _ = call(lambda: stage(wtxn, e["content"], relativize))
+            res, exc, _ = call(lambda: stage(wtxn, e["content"], relativize, e.get("form", "rdata"), kept))
         elif op == "end":
             res, exc, _ = end_writer(wtxn, e["how"])
             wtxn = None
+            released += kept
+            kept = []
+        elif op == "scribble":
+            rec["nobj"] = len(released)
+            scribble(released, e["how"])
+            res, exc = "ok", ""
         elif op == "setmax":
             res, exc, _ = call(lambda: zone.set_max_versions(e["n"]))
         elif op == "setmax_none":
@@ -480,7 +564,7 @@ def random_script(seed, steps, fresh):
             choices += [("close", 3)]
             if not fresh:
                 choices += [("mutate", 0.5)]
-        choices += [("setmax", 1.2), ("setmax_none", 0.5), ("setpolicy", 1)]
+        choices += [("setmax", 1.2), ("setmax_none", 0.5), ("setpolicy", 1), ("scribble", 0.8)]
         if not fresh:
             choices += [("zmutate", 0.3)]
         op = rnd.choices([c[0] for c in choices], [c[1] for c in choices])[0]
@@ -489,7 +573,7 @@ def random_script(seed, steps, fresh):
             script.append({"op": "begin", "repl": repl})
             writer = "clean"
         elif op == "stage":
-            script.append({"op": "stage", "content": rand_content(rnd)})
+            script.append({"op": "stage", "content": rand_content(rnd), "form": rnd.choice(["rdata", "rdataset", "rdataset", "rrset"])})
             writer = "dirty"
         elif op == "commit":
             script.append({"op": "end", "how": rnd.choice(["commit", "exit"])})
@@ -527,11 +611,16 @@ def random_script(seed, steps, fresh):
             script.append({"op": "setpolicy", "p": rnd.choice(["oddid", "oldserial", "none", "default"])})
         elif op == "zmutate":
             script.append({"op": "zmutate"})
+        elif op == "scribble":
+            script.append({"op": "scribble", "how": rnd.choice(["add", "ttl", "clear"])})
     return script
 
 
 def rand_content(rnd):
-    items = [it for it in (["a", 1], ["a", 2], ["b", 1]) if rnd.random() < 0.5]
+    items = [it for it in (["a", 1], ["a", 2], ["b", 1], ["g.d", 1]) if rnd.random() < 0.5]
+    if rnd.random() < 0.4:
+        items.append(["d", 0])
+    items.sort()
     return {"serial": rnd.randint(1, 4), "items": items}
 
 
